@@ -48,15 +48,18 @@ MUTATIONS = [
       (GOLD_BIT, r"re:_ = x\[(\w+-\d+)\]", r"_ = x[(\1)&0]"),
       (GOLD_JSON, r"re:_ = x\[(\w+-\d+)\]", r"_ = x[(\1)&0]")]),
     # ---------------------------------------------------------------- C12
-    ("scan_accepts_string", "C12", "Scan also accepts a Go string",
-     [(TMPL, "\tdata, ok := value.([]byte)\n\tif !ok {\n\t\treturn errors.New(\"bad enum type\")\n\t}",
-       "\tdata, ok := value.([]byte)\n\tif !ok {\n\t\ts_, ok := value.(string)\n\t\tif !ok {\n\t\t\treturn errors.New(\"bad enum type\")\n\t\t}\n\t\tdata = []byte(s_)\n\t}")]),
+    ("scan_rejects_string", "C12", "Scan accepts []byte only again (K_sql_scan_string regression)",
+     [(TMPL, "\tcase string:\n\t\t// what Value() produces, and what drivers that keep text columns as Go strings hand over\n\t\tdata = []byte(v_)\n", "")]),
+    ("scan_accepts_int", "C12", "Scan also accepts an int64 (as its decimal text)",
+     [(TMPL, "\tdefault:\n\t\treturn errors.New(\"bad enum type\")\n\t}\n\te_, err :=", "\tcase int64:\n\t\tdata = []byte(fmt.Sprintf(\"%d\", v_))\n\tdefault:\n\t\treturn errors.New(\"bad enum type\")\n\t}\n\te_, err :=")]),
     ("parse_zero_without_error", "C12", "ParseEnum returns the zero value and no error on a miss",
      [("enumer.go", "\t\treturn t, fmt.Errorf(\"requested value '%s' was not found\", str)", "\t\t_ = fmt.Sprint(str)\n\t\treturn t, nil")]),
     ("try_parse_writes_always", "C12", "TryParseEnum stores the result before looking at the error",
      [("enumer.go", "\tt, err := ParseEnum[T](str)\n\tif err != nil {", "\tt, err := ParseEnum[T](str)\n\t*v = t\n\tif err != nil {")]),
-    ("is_enum_no_wrap", "C12", "IsEnum compares without converting to T (no wrap-around)",
-     [("enumer.go", "\t\tif v == T(value) {", "\t\tif int64(v) == int64(value) && (v < 0) == (value < 0) {")]),
+    ("is_enum_wraps_again", "C12", "IsEnum compares after the conversion only (K_is_enum_wrap regression)",
+     [("enumer.go", "\tif TV(x) != value || (x < 0) != (value < 0) {", "\tif false && (TV(x) != value || (x < 0) != (value < 0)) {")]),
+    ("is_enum_sign_check_dropped", "C12", "IsEnum checks the round trip of the conversion but not the sign",
+     [("enumer.go", "\tif TV(x) != value || (x < 0) != (value < 0) {", "\tif TV(x) != value {")]),
     ("unmarshal_text_clobbers", "C12", "UnmarshalText assigns before checking the error",
      [(TMPL, "\tif v_, err = shoot.ParseEnum[{{.TypeName}}](string(text)); err != nil {\n\t\treturn err\n\t}",
        "\tif v_, err = shoot.ParseEnum[{{.TypeName}}](string(text)); err != nil {\n\t\t*{{$this}} = v_\n\t\treturn err\n\t}")]),
